@@ -12,7 +12,7 @@
 (* index in `bad`, drops the current Parser session (until the next Reset) *)
 (* and goes on, so one rejected event does not hide the rest of the file.  *)
 (***************************************************************************)
-EXTENDS BklCli, Json, SequencesExt
+EXTENDS BklTools, Json, SequencesExt
 
 TraceFile == "trace.ndjson"
 Trace     == ndJsonDeserialize(TraceFile)
@@ -185,6 +185,46 @@ TWrap ==
               ELSE ""
      IN Verdict(j)
 
+(* bklr / bkld / bkli runs.  The tool's real output (decoded by an          *)
+(* independent decoder) is judged by the specification: exactly for bklr,   *)
+(* by contract for bkld and bkli.                                           *)
+ChainOf(layers) == MergeChain(layers[1], Tail(layers))
+JudgeBklr(e) ==
+  LET m == ChainOf(e.layers) IN
+  IF ~m.ok THEN (IF e.ok THEN "bklr accepted layers that do not merge" ELSE "")
+  ELSE IF ~e.ok THEN "bklr failed on layers that merge"
+  ELSE IF RequiredModel(m.v) # Skeleton(m.v) THEN "specification: transcribed algorithm differs from the declarative skeleton"
+  ELSE IF e.out # Skeleton(m.v) THEN "bklr's output is not exactly the $required skeleton"
+  ELSE IF ~IsNull(e.out) /\ ~OnlyMarkers(e.out) THEN "bklr's output contains something else than markers and their containers"
+  ELSE IF e.second # e.out THEN "bklr on its own output changes it"
+  ELSE IF e.plain /\ ((~IsNull(Skeleton(m.v))) # (~e.bkl.ok /\ e.bkl.required))
+       THEN "bkl and bklr disagree on whether a required field is missing"
+  ELSE ""
+JudgeBkld(e) ==
+  IF ~e.ok THEN "bkld failed"
+  ELSE IF e.base = e.target /\ ~EmptyLayer(e.layer) THEN "base and target are equal but the emitted layer is not empty"
+  ELSE IF ~ApplyLayer(e.base, e.layer).ok THEN "the emitted layer is not accepted on top of the base (specification)"
+  ELSE IF ~DiffOK(e.base, e.target, e.layer) THEN "base + emitted layer does not evaluate to the target (specification)"
+  ELSE IF ~e.applied.ok THEN "bkl rejects the emitted layer on top of the base"
+  ELSE IF e.applied.outs # <<e.target>> THEN "bkl evaluates base + emitted layer to something else than the target"
+  ELSE ""
+JudgeBkli(e) ==
+  IF ~e.ok THEN "bkli failed"
+  ELSE IF \E i \in DOMAIN e.inputs : ~Common(e.out, e.inputs[i]) THEN "bkli's result contains a value that is not in every input"
+  ELSE IF ~MarksDiffering(e.out, e.inputs) THEN "a field with differing values is not marked $required (or a shared value is missing)"
+  ELSE IF ~Maximal(e.out, e.inputs) THEN "bkli dropped something all inputs share"
+  ELSE IF \E i \in DOMAIN e.selfs : e.selfs[i] # e.inputs[i] THEN "intersecting a document with itself does not return it"
+  ELSE IF \E i \in DOMAIN e.migrate : ~e.migrate[i].ok THEN "migration: bkld or bkl failed on the common base"
+  ELSE IF \E i \in DOMAIN e.migrate : ~DiffOK(e.out, e.inputs[i], e.migrate[i].layer)
+       THEN "migration: common base + bkld layer does not evaluate to the input (specification)"
+  ELSE IF \E i \in DOMAIN e.migrate : e.migrate[i].outs # <<e.inputs[i]>> THEN "migration: bkl does not reproduce the input"
+  ELSE ""
+TTool ==
+  /\ IsEvent("Tool") /\ Advance /\ Keep /\ UNCHANGED shas
+  /\ Verdict(CASE Ev.tool = "bklr" -> JudgeBklr(Ev)
+               [] Ev.tool = "bkld" -> JudgeBkld(Ev)
+               [] Ev.tool = "bkli" -> JudgeBkli(Ev))
+
 (* one process: the termination protocol of every tool (C08) *)
 TProc ==
   /\ IsEvent("Proc") /\ Advance /\ Keep /\ UNCHANGED shas
@@ -215,7 +255,7 @@ TDone ==
   /\ l' = l + 1
   /\ UNCHANGED <<docs, par, live, bad, nchk, nundef, shas, firsts>>
 
-TNext == TReset \/ TSkip \/ TMergeDocument \/ TDocuments \/ TOutput \/ TEval \/ TRun \/ TProc \/ TRepeat \/ TWrap \/ TDone
+TNext == TReset \/ TSkip \/ TMergeDocument \/ TDocuments \/ TOutput \/ TEval \/ TRun \/ TProc \/ TRepeat \/ TWrap \/ TTool \/ TDone
 TSpec == TInit /\ [][TNext]_vars
 
 (* every line is consumed by exactly one action *)
